@@ -62,6 +62,11 @@ impl FileStack {
 
     fn add_files(&mut self, paths: &[PathBuf], reports: &mut ReportCollection) {
         for path in paths {
+            if !path.exists() && path.extension().map_or(true, |extension| extension != "circom") {
+                // Files which are not Circom files are skipped, but only if they exist.
+                reports.push(FileOsError { path: path.display().to_string() }.into_report());
+                continue;
+            }
             if path.is_dir() {
                 // Handle directories on a best effort basis only.
                 if let Ok(entries) = fs::read_dir(path) {
